@@ -52,7 +52,7 @@ def parse(err):
                 stack.pop()
             parent = stack[-1][1] if stack else 0
             cur = {"parent": parent, "kindname": m.group(2), "kind": (section if parent == 0 else "sub"), "lcat": [], "cat": [], "sup": False, "red": False,
-                   "hasLocal": False, "hasChanges": True, "filtered": False, "cls": 0}
+                   "hasLocal": False, "hasChanges": True, "filtered": False, "cls": 0, "lsup": False}
             nodes.append(cur)
             stack.append((ind, len(nodes)))
             continue
@@ -71,6 +71,7 @@ def parse(err):
         elif s.startswith("local-category:"):
             cl, names, unk = classes(s[len("local-category:"):])
             cur["lcat"] = cl
+            cur["lsup"] = bool(names & {"SUPPRESSED_CATEGORY", "PRIVATE_TYPE_CATEGORY"})     # a suppression specification matched the node itself
             unknown += unk
         elif s.startswith("verif:"):
             seen_h3 = True
@@ -83,3 +84,37 @@ def parse(err):
     if not seen_h3:
         return None
     return nodes, sorted(set(unknown))
+
+
+def tree_event(abidiff, a, b, opts, env, case, suppr=None, base=None, extra=None):
+    """One DiffTreeTrace event: the forest `abidiff --dump-diff-tree <opts> a b` dumps (hook H3) together with what the same command
+    without the dump printed and returned.  -> ("ok", event) | ("discard", reason) | None (no H3 lines: not a hooks build).
+    `base` is the vf.Res of the run without --dump-diff-tree, if the caller already has it."""
+    import vf, report, campaign
+    cmd = [abidiff, "--no-default-suppression"] + list(opts) + (["--suppressions", suppr] if suppr else [])
+    r = base if base is not None else vf.run(cmd + [a, b], env=env)
+    t = vf.run(cmd + ["--dump-diff-tree", a, b], env=env)
+    pt = parse(t.err)
+    if pt is None:
+        return None
+    if t.out != r.out:
+        return ("discard", "dump-run-prints-another-report")
+    nodes, unknown = pt
+    if unknown:
+        return ("discard", "unknown-category-name")
+    if len(nodes) > 60:
+        return ("discard", "tree-too-large")
+    rep = report.parse(r.out)
+    S = rep["summary"]
+    g = lambda part, k: S.get(part, {}).get(k, 0)
+    ev = {"e": "Tree", "case": case, "opts": " ".join(opts), "nodes": nodes, "showRed": "--redundant" in opts, "allowHarmless": "--harmless" in opts,
+          "allowHarmful": "--no-harmful" not in opts, "sumChangedFns": g("fns", "changed"), "sumFilteredFns": g("fns", "changed_f"),
+          "sumChangedVars": g("vars", "changed"), "sumFilteredVars": g("vars", "changed_f"),
+          "netRemoved": g("fns", "removed") + g("vars", "removed") + g("fsyms", "removed") + g("vsyms", "removed"),
+          "netAdded": g("fns", "added") + g("vars", "added") + g("fsyms", "added") + g("vsyms", "added"),
+          "sonameOrArch": rep["soname"] or rep["arch"], "exit": r.exit, "ret": campaign.retof(t), "suppr": bool(suppr),
+          "leaf": "--leaf-changes-only" in opts, "leafTypes": rep["leaf"].get("types", 0), "leafTypesF": rep["leaf"].get("types_f", 0),
+          "leafArtifacts": rep["leaf"].get("artifacts", 0), "leafArtifactsF": rep["leaf"].get("artifacts_f", 0)}
+    if extra:
+        ev.update(extra)
+    return ("ok", ev)
